@@ -15,7 +15,7 @@ RULE = (
     "full cross product assemblage {(ol),(en),(ol,en),(en,ol)} x phase-fraction letters x texture "
     "kind (all identity / cube letters / generic letters; distinct letters per grain, per mineral "
     "and per snapshot) x grain count x volume-vector letter (rolled per snapshot and mineral) x "
-    "snapshot count x stiffness set (built-in default argument / fixed dense triclinic SPD pair / "
+    "snapshot count x stiffness set (built-in default argument / fixed dense triclinic SPD pair / the same pair in whole GPa held as int64 and as float32 arrays / "
     "seeded dense SPD pair, both through a StiffnessTensors instance with modified attributes); "
     "inside each case EVERY ordering of the mineral list x {as given, assemblage and fractions "
     "permuted together} x every frame-rotation letter Q (A -> A.Q^T). Plus mismatch cases: two "
@@ -35,7 +35,7 @@ ASSUMPTIONS = [
     "numpy einsum is trusted; tolerance 1e-9 relative to the largest entry of the expected 6x6",
 ]
 BOUND = {
-    "quick": "n_grains in {1,2,3}; 1-3 snapshots; 5 fraction letters; 3 volume letters; 3 stiffness sets; "
+    "quick": "n_grains in {1,2,3}; 1-3 snapshots; 5 fraction letters; 3 volume letters; 5 stiffness sets; "
     "6 frame rotations (3 cube + 3 generic)",
     "thorough": "n_grains in {1,2,3,4,6}; 1-4 snapshots; 8 fraction letters incl. (1,0),(0,1); 7 volume "
     "letters; 4 texture kinds (adds mixed cube/generic/near-identity); all FRAME rotations",
@@ -55,7 +55,7 @@ VOL_Q = ["uniform", "dominant", "onezero"]
 VOL_T = VOL_Q + ["geometric", "allbutone", "dup", "dirichlet"]
 N_Q = [1, 2, 3]
 N_T = [1, 2, 3, 4, 6]
-STIFF = ["builtin", "custom", "seeded"]
+STIFF = ["builtin", "custom", "seeded", "integer", "f32int"]
 QCUBE_QUICK = ["cube03", "cube10", "cube17"]
 
 _P = None  # pydrex
@@ -99,7 +99,7 @@ def warmup():
     m = _mineral(0, [np.ones(1)], [np.eye(3)[None]])
     pydrex.voigt_averages([m], [pydrex.MineralPhase.olivine], [1.0])
     # the custom stiffness letters must be what they claim to be (else: harness error)
-    for name in ("custom", "seeded"):
+    for name in ("custom", "seeded", "integer", "f32int"):
         for c in stiffness(name)[1].values():
             assert np.array_equal(c, c.T) and np.linalg.eigvalsh(c).min() > 1.0
             assert np.all(c != 0.0) and len(np.unique(np.round(c[np.triu_indices(6)], 9))) == 21
@@ -191,6 +191,17 @@ def stiffness(name):
         b_en = rng.normal(size=(6, 6))
         c_ol = 30.0 * b_ol @ b_ol.T + 50.0 * np.eye(6)
         c_en = 25.0 * b_en @ b_en.T + 60.0 * np.eye(6)
+    elif name in ("integer", "f32int"):
+        # the "custom" pair typed as whole numbers (units of 0.1 GPa): the same whole numbers held as int64 or as
+        # float32 arrays (both are ndarrays, which is all StiffnessTensors asks for)
+        _, base = stiffness("custom")
+        dt = np.int64 if name == "integer" else np.float32
+        c_ol, c_en = np.rint(10.0 * base[0]), np.rint(10.0 * base[1])
+        c_ol, c_en = np.triu(c_ol) + np.triu(c_ol, 1).T, np.triu(c_en) + np.triu(c_en, 1).T
+        st = _M.StiffnessTensors()
+        st.olivine = c_ol.astype(dt)
+        st.enstatite = c_en.astype(dt)
+        return st, {0: c_ol, 1: c_en}
     else:
         raise KeyError(name)
     c_ol = (c_ol + c_ol.T) / 2
